@@ -86,6 +86,7 @@ func specMs(d time.Duration) float64 { return ConvertDurationToMs(d) }
 //@ ghost sendClock (Array Int Int)
 //@ requires[pre.nonnil]       t != nil && ctx != nil
 //@ requires[pre.ghost]        sendN >= 0
+//@ ensures[ghost.mono]        sendN >= old(sendN)
 //@ ensures[C10.ser.atom]      ret1 != nil ==> ret0 == nil
 //@ ensures[C03.ser.len]       ret1 == nil ==> len(ret0) >= 1 && len(ret0) <= int(p.MaxTTL)-int(p.MinTTL)+1
 //@ ensures[C03+C01.ser.ttl]   ret1 == nil ==> forall(k, 0, len(ret0), ret0[k] != nil ==> int(ret0[k].TTL) == int(p.MinTTL)+k)
@@ -117,6 +118,7 @@ func specMs(d time.Duration) float64 { return ConvertDurationToMs(d) }
 //@ inv[C01.slot]            forall(k, 0, len(results), results[k] != nil ==> int(results[k].TTL) == k && int(p.MinTTL) <= k)
 //@ requires[pre.nonnil]       t != nil && ctx != nil
 //@ requires[pre.ghost]        sendN >= 0
+//@ ensures[ghost.mono]        sendN >= old(sendN)
 //@ ensures[C10.par.atom]      ret1 != nil ==> ret0 == nil
 //@ ensures[C03.par.len]       ret1 == nil ==> len(ret0) >= 1 && len(ret0) <= int(p.MaxTTL)-int(p.MinTTL)+1
 //@ ensures[C03+C01.par.ttl]   ret1 == nil ==> forall(k, 0, len(ret0), ret0[k] != nil ==> int(ret0[k].TTL) == int(p.MinTTL)+k)
@@ -139,7 +141,8 @@ func specMs(d time.Duration) float64 { return ConvertDurationToMs(d) }
 //@ requires[pre.valid]        p.MinTTL >= 1 && p.MinTTL <= p.MaxTTL && t != nil && writerCtx != nil && sendN >= 0
 //@ ensures[C06.par.order]     (sendN == old(sendN) || sendN - old(sendN) <= int(p.MaxTTL)-int(p.MinTTL)+1) && forall(k, old(sendN), sendN, sel(sendLog, k) == int(p.MinTTL) + (k - old(sendN)))
 //@ ensures[C06.par.pace]      forall(k, old(sendN)+1, sendN, sel(sendClock, k) >= sel(sendClock, k-1) + int(p.SendDelay))
-//@ stable C06.par.order C06.par.pace
+//@ ensures[ghost.mono]        sendN >= old(sendN)
+//@ stable C06.par.order C06.par.pace ghost.mono
 //@ modifies ghost clock, ghost sendN, ghost sendLog, ghost sendClock
 //@ loop 1 invariant[i.range]  int(p.MinTTL) <= i && i <= int(p.MaxTTL)+1
 //@ loop 1 invariant[C06.order] sendN == old(sendN) + (i - int(p.MinTTL)) && forall(k, old(sendN), sendN, sel(sendLog, k) == int(p.MinTTL) + (k - old(sendN)))
